@@ -34,6 +34,7 @@ Verdict0(e, i) ==
       [] e.e = "ElBin" -> JudgeElBin(e, i)
       [] e.e = "ElUn" -> JudgeElUn(e, i)
       [] e.e = "ElShift" -> JudgeElShift(e, i)
+      [] e.e = "ElScale" -> JudgeElScale(e, i)
       [] e.e = "ElLimits" -> JudgeElLimits(e, i)
       [] e.e = "BitsU" -> JudgeBitsU(e, i)
       [] e.e = "BitsS" -> JudgeBitsS(e, i)
